@@ -5,6 +5,7 @@ import (
 	"errors"
 	"fmt"
 	"os"
+	"path/filepath"
 	"strings"
 
 	"github.com/vektra/mockery/v3/config"
@@ -123,9 +124,25 @@ func NewInterfaceCollection(
 	}
 }
 
+// absFilePath returns the absolute, cleaned form of an output file path, so that
+// different spellings of one file (relative, absolute, through "..") compare equal.
+func absFilePath(p *pathlib.Path) (string, error) {
+	abs, err := filepath.Abs(p.String())
+	if err != nil {
+		return "", stackerr.NewStackErr(err)
+	}
+	return abs, nil
+}
+
 func (i *InterfaceCollection) Append(ctx context.Context, iface *config.Interface) error {
-	collectionFilepath := i.outFilePath.String()
-	interfaceFilepath := iface.Config.FilePath().String()
+	collectionFilepath, err := absFilePath(i.outFilePath)
+	if err != nil {
+		return err
+	}
+	interfaceFilepath, err := absFilePath(iface.Config.FilePath())
+	if err != nil {
+		return err
+	}
 	log := zerolog.Ctx(ctx).With().
 		Str(logging.LogKeyInterface, iface.Name).
 		Str("collection-pkgname", i.outPkgName).
@@ -270,9 +287,15 @@ func (r *RootApp) Run() error {
 			filePath := ifaceConfig.FilePath().Clean()
 			ifaceLog.Info().Str("collection", filePath.String()).Msg("adding interface to collection")
 
-			_, ok := mockFileToInterfaces[filePath.String()]
+			// The collections are keyed by the absolute path so that every
+			// spelling of one output file lands in the same collection.
+			collectionKey, err := absFilePath(filePath)
+			if err != nil {
+				return err
+			}
+			_, ok := mockFileToInterfaces[collectionKey]
 			if !ok {
-				mockFileToInterfaces[filePath.String()] = NewInterfaceCollection(
+				mockFileToInterfaces[collectionKey] = NewInterfaceCollection(
 					iface.Pkg.PkgPath,
 					filePath,
 					iface.Pkg,
@@ -280,7 +303,7 @@ func (r *RootApp) Run() error {
 					*ifaceConfig.Template,
 				)
 			}
-			if err := mockFileToInterfaces[filePath.String()].Append(
+			if err := mockFileToInterfaces[collectionKey].Append(
 				ctx,
 				config.NewInterface(
 					iface.Name,
